@@ -99,6 +99,9 @@ pub struct Case {
     /// again at once, up to this many times
     #[serde(default)]
     pub retry_refused: u8,
+    /// `BlobConfig::max_artifact_size` (None = not configured, the default)
+    #[serde(default)]
+    pub max_size: Option<usize>,
 }
 
 pub struct C19;
@@ -166,6 +169,7 @@ struct Env {
     /// slots no thread ever deletes (their reads are judged during the scheduled phase)
     never_deleted: BTreeSet<u8>,
     retry_refused: u8,
+    max_size: Option<usize>,
 }
 
 struct OpenW {
@@ -173,6 +177,7 @@ struct OpenW {
     bytes: Vec<u8>,
     pos: usize,
     token: u64,
+    last: Option<usize>,
 }
 
 #[derive(Default)]
@@ -192,6 +197,7 @@ fn err_kind(e: &BlobError) -> &'static str {
         BlobError::NotFound(_) => "not-found",
         BlobError::ChunkMissing(_) => "chunk-missing",
         BlobError::EmptyData => "empty-data",
+        BlobError::InvalidConfig(_) => "rejected-by-configuration",
         _ => "other-error",
     }
 }
@@ -362,7 +368,19 @@ impl Env {
                 self.ev(&format!("{how} slot{s} len={} -> ok", data.len()));
                 self.ctx.fp(&format!("{how}:ok"));
                 self.size_probe(data.len());
+                let over = self.over_limit(data.len());
+                if over {
+                    // the text says nothing about limits: an accepted over-limit write is an
+                    // ordinary acknowledged write for the oracle
+                    self.ctx.probe("write_over_size_limit_accepted");
+                }
                 let mut h = lock(&self.h);
+                if over {
+                    let o = format!("observation (size limit, outside C19's text): a {how} larger than the configured max_artifact_size was accepted");
+                    if !h.observations.contains(&o) {
+                        h.observations.push(o);
+                    }
+                }
                 h.writes_ok += 1;
                 h.slots.insert(s, Slot { id, bytes: data, life: Life::Live });
             },
@@ -372,6 +390,9 @@ impl Env {
                 self.ctx.fp(&format!("{how}:err"));
                 if data.is_empty() && matches!(e, BlobError::EmptyData) {
                     self.ctx.probe("one_call_put_of_zero_bytes_rejected");
+                } else if self.over_limit(data.len()) && matches!(e, BlobError::InvalidConfig(_)) {
+                    // refused because of the configured limit: un-acknowledged, nothing to report
+                    self.ctx.probe("write_over_size_limit_rejected");
                 } else {
                     self.ctx.probe("write_returned_error");
                     let mut h = lock(&self.h);
@@ -382,6 +403,34 @@ impl Env {
                 }
             },
         }
+    }
+
+    fn over_limit(&self, len: usize) -> bool {
+        self.max_size.is_some_and(|m| len > m)
+    }
+
+    /// An open streamed write is about to grow from `pos` to `end` bytes: count the moment it
+    /// crosses the configured size limit, and whether a chunk it already stored is part of a
+    /// live artifact (what a rejected upload must not damage).
+    fn crossing_probe(&self, data: &[u8], pos: usize, end: usize) {
+        let Some(m) = self.max_size else { return };
+        if pos <= m && end > m {
+            self.ctx.probe("open_stream_crossed_the_size_limit");
+            let stored = (pos / self.chunk) * self.chunk;
+            let keys: BTreeSet<String> = chunk_keys(&data[..stored], self.chunk).into_iter().collect();
+            if !keys.is_empty() && self.shares_with_live(&keys, None) {
+                self.ctx.probe("open_stream_crossed_the_size_limit_holding_a_chunk_of_a_live_artifact");
+            }
+        }
+    }
+
+    fn piece_probe(&self, prev: Option<usize>, n: usize) {
+        let p = match (prev, n) {
+            (Some(a), b) if a < 64 && b >= 64 => "stream_short_piece_then_long_piece",
+            (Some(a), b) if a >= 64 && b < 64 => "stream_long_piece_then_short_piece",
+            _ => return,
+        };
+        self.ctx.probe(p);
     }
 
     /// chunk keys the store's own metadata lists for an artifact
@@ -534,15 +583,22 @@ impl Env {
                     let mut w = now_or_never(self.blob.writer("f.bin", PutOptions::new()))?;
                     let mut pos = 0;
                     let mut i = 0;
+                    let mut prev = None;
                     while pos < data.len() {
                         let n = if frags.is_empty() { data.len() } else { (frags[i % frags.len()] as usize).max(1) };
                         let end = (pos + n).min(data.len());
+                        self.crossing_probe(&data, pos, end);
+                        self.piece_probe(prev, end - pos);
+                        prev = Some(end - pos);
                         now_or_never(w.write(&data[pos..end]))?;
                         pos = end;
                         i += 1;
                         if pos < data.len() {
                             sched::yield_point("c19.between_fragments");
                         }
+                    }
+                    if i > 8 {
+                        self.ctx.probe("stream_of_many_pieces");
                     }
                     sched::yield_point("c19.before_finish");
                     now_or_never(w.finish())
@@ -563,7 +619,7 @@ impl Env {
                     Ok(w) => {
                         let tok = self.begin(Kind::Write, *s, keys);
                         self.ev(&format!("open slot{s} len={}", data.len()));
-                        loc.open.insert(*s, OpenW { w, bytes: data, pos: 0, token: tok });
+                        loc.open.insert(*s, OpenW { w, bytes: data, pos: 0, token: tok, last: None });
                     },
                     Err(_) => ctx.probe("write_returned_error"),
                 }
@@ -573,6 +629,9 @@ impl Env {
                 if let Some(o) = loc.open.get_mut(s) {
                     let end = (o.pos + (*n as usize).max(1)).min(o.bytes.len());
                     if end > o.pos {
+                        self.crossing_probe(&o.bytes, o.pos, end);
+                        self.piece_probe(o.last, end - o.pos);
+                        o.last = Some(end - o.pos);
                         let r = now_or_never(o.w.write(&o.bytes[o.pos..end]));
                         self.ev(&format!("write slot{s} [{}..{end}] -> {}", o.pos, if r.is_ok() { "ok" } else { "err" }));
                         o.pos = end;
@@ -583,15 +642,17 @@ impl Env {
                     // un-acknowledged: give the write up
                     if let Some(o) = loc.open.remove(s) {
                         self.end(o.token);
+                        ctx.probe(if self.over_limit(o.pos) { "write_over_size_limit_rejected" } else { "write_returned_error" });
                     }
-                    ctx.probe("write_returned_error");
                 }
             },
             Op::Finish { s } => {
                 if let Some(o) = loc.open.remove(s) {
-                    let OpenW { mut w, bytes, pos, token } = o;
+                    let OpenW { mut w, bytes, pos, token, last } = o;
                     let r = (|| {
                         if pos < bytes.len() {
+                            self.crossing_probe(&bytes, pos, bytes.len());
+                            self.piece_probe(last, bytes.len() - pos);
                             now_or_never(w.write(&bytes[pos..]))?;
                         }
                         now_or_never(w.finish())
@@ -917,8 +978,13 @@ fn op_name(op: &Op) -> &'static str {
 fn gen_content(rng: &mut Rng, chunk: usize, nb: u8) -> Content {
     let b = |rng: &mut Rng| rng.below(u64::from(nb)) as u8;
     let c1 = chunk as u8;
-    match rng.below(12) {
+    match rng.below(14) {
         0 => Content { blocks: vec![], tail: 0, tail_of: 0 },
+        // many chunks (long enough for pieces of 64 bytes and more at the larger chunk sizes)
+        12 | 13 => {
+            let n = rng.range(5, 9);
+            Content { blocks: (0..n).map(|_| b(rng)).collect(), tail: rng.below(chunk as u64) as u8, tail_of: b(rng) }
+        },
         1 => {
             if chunk > 1 {
                 Content { blocks: vec![], tail: 1, tail_of: b(rng) }
@@ -941,13 +1007,36 @@ fn gen_content(rng: &mut Rng, chunk: usize, nb: u8) -> Content {
     }
 }
 
+/// one piece size of a class: tiny, around the chunk size, long (>= 64 bytes)
+fn gen_piece(rng: &mut Rng, chunk: usize) -> u8 {
+    match rng.below(4) {
+        0 => rng.range(1, 7) as u8,
+        1 => rng.range(chunk.saturating_sub(1).max(1) as u64, chunk as u64 + 1) as u8,
+        2 => rng.range(1, (2 * chunk as u64 + 1).min(255)) as u8,
+        _ => rng.range(64, 255) as u8,
+    }
+}
+
+/// piece sizes of a streamed write (cycled; empty = the whole content in one piece)
 fn gen_frags(rng: &mut Rng, chunk: usize) -> Vec<u8> {
-    match rng.below(5) {
+    match rng.below(10) {
+        // one huge piece
         0 => vec![],
+        // many tiny pieces
         1 => vec![1],
-        2 => vec![chunk as u8],
-        3 => vec![(chunk as u8).saturating_sub(1).max(1), 2],
-        _ => (0..rng.range(1, 3)).map(|_| rng.range(1, 2 * chunk as u64 + 1) as u8).collect(),
+        2 => (0..rng.range(2, 4)).map(|_| rng.range(1, 5) as u8).collect(),
+        3 => vec![chunk as u8],
+        4 => vec![(chunk as u8).saturating_sub(1).max(1), 2],
+        // a short piece, then long ones
+        5 => vec![rng.range(1, 63) as u8, 255, 255, 255, 255, 255],
+        // a long piece, then short ones
+        6 => {
+            let short = rng.range(1, 9) as u8;
+            vec![rng.range(64, 255) as u8, short, short, short, short, short]
+        },
+        7 => (0..rng.range(1, 3)).map(|_| rng.range(1, (2 * chunk as u64 + 1).min(255)) as u8).collect(),
+        // any mixture of tiny / chunk-sized / long pieces
+        _ => (0..rng.range(2, 6)).map(|_| gen_piece(rng, chunk)).collect(),
     }
 }
 
@@ -994,7 +1083,7 @@ impl Gen<'_> {
                         let i = self.rng.usize_below(open.len());
                         let s = open[i];
                         match self.rng.below(5) {
-                            0..=1 => Op::Write { s, n: self.rng.range(1, 2 * self.chunk as u64) as u8 },
+                            0..=1 => Op::Write { s, n: gen_piece(self.rng, self.chunk) },
                             2..=3 => {
                                 open.remove(i);
                                 Op::Finish { s }
@@ -1034,10 +1123,17 @@ impl Scenario for C19 {
     }
 
     fn generate(&self, rng: &mut Rng, _tier: Tier, _index: u64) -> Case {
-        let chunk = *rng.pick(&[1usize, 2, 3, 4, 4, 5, 8, 16]);
+        let chunk = *rng.pick(&[1usize, 2, 3, 4, 4, 5, 8, 16, 16, 32, 64]);
         let min_age_s = *rng.pick(&[0u64, 0, 2, 60]);
         let gc_batch = *rng.pick(&[100usize, 100, 100, 2, 1]);
         let nb = rng.range(1, 4) as u8;
+        // the store's size limit: not configured (default), or a few chunks
+        let max_size = if rng.chance(1, 3) {
+            let c = chunk;
+            Some(*rng.pick(&[c, c + 1, 2 * c, 2 * c, 2 * c + 1, 3 * c, 3 * c, 4 * c, 5 * c + c / 2]))
+        } else {
+            None
+        };
         let mode = rng.below(10);
         let mut g = Gen { rng, chunk, nb, next_slot: 0, min_age_s };
         if mode < 4 {
@@ -1068,7 +1164,7 @@ impl Scenario for C19 {
                 }
             }
             let retry_refused = *g.rng.pick(&[0u8, 0, 1, 3]);
-            return Case { chunk, min_age_s, gc_batch, setup, threads: vec![], schedule: vec![], tail: vec![], retry_refused };
+            return Case { chunk, min_age_s, gc_batch, setup, threads: vec![], schedule: vec![], tail: vec![], retry_refused, max_size };
         }
         // scheduled threads
         let mut setup = Vec::new();
@@ -1150,7 +1246,7 @@ impl Scenario for C19 {
         tail.push(Op::Advance { ms: (min_age_s * 1000 + 1500) as u32 });
         tail.push(Op::Gc);
         let retry_refused = *g.rng.pick(&[0u8, 0, 1, 3]);
-        Case { chunk, min_age_s, gc_batch, setup, threads, schedule, tail, retry_refused }
+        Case { chunk, min_age_s, gc_batch, setup, threads, schedule, tail, retry_refused, max_size }
     }
 
     fn run(&self, case: &Case, ctx: &Arc<RunCtx>) -> RunOut {
@@ -1162,6 +1258,13 @@ impl Scenario for C19 {
             .with_chunk_size(chunk)
             .with_gc_min_age(Duration::from_secs(case.min_age_s))
             .with_gc_batch_size(case.gc_batch.max(1));
+        let cfg = match case.max_size {
+            Some(m) => {
+                ctx.probe("size_limit_configured");
+                cfg.with_max_artifact_size(m)
+            },
+            None => cfg,
+        };
         let blob = match now_or_never(BlobStore::new(TensorStore::new(), cfg)) {
             Ok(b) => Arc::new(b),
             Err(e) => {
@@ -1178,7 +1281,7 @@ impl Scenario for C19 {
                 }
             }
         }
-        let mk_env = |par: bool, tag: String, tid: Option<usize>| Env { blob: blob.clone(), h: h.clone(), ctx: ctx.clone(), chunk, par, tag, tid, never_deleted: never_deleted.clone(), retry_refused: case.retry_refused };
+        let mk_env = |par: bool, tag: String, tid: Option<usize>| Env { blob: blob.clone(), h: h.clone(), ctx: ctx.clone(), chunk, par, tag, tid, never_deleted: never_deleted.clone(), retry_refused: case.retry_refused, max_size: case.max_size };
         let env = mk_env(false, String::new(), None);
         let mut loc = Local::default();
         ctx.fp(&format!("chunk{}:t{}", chunk, case.threads.len()));
@@ -1399,6 +1502,11 @@ impl Scenario for C19 {
             c.min_age_s = 0;
             v.push(c);
         }
+        if case.max_size.is_some() {
+            let mut c = case.clone();
+            c.max_size = None;
+            v.push(c);
+        }
         v
     }
 
@@ -1426,11 +1534,18 @@ impl Scenario for C19 {
             "writer_and_deleter_of_same_chunk_overlapped",
             "writers_of_same_chunk_overlapped",
             "gc_overlapped_a_write",
+            "size_limit_configured",
+            "write_over_size_limit_rejected",
+            "open_stream_crossed_the_size_limit",
+            "open_stream_crossed_the_size_limit_holding_a_chunk_of_a_live_artifact",
+            "stream_short_piece_then_long_piece",
+            "stream_long_piece_then_short_piece",
+            "stream_of_many_pieces",
         ]
     }
 
     fn rule(&self) -> String {
-        "A case is: chunk size (1..16 bytes), gc min_age and batch size, a sequential setup program, 0 or 2-4 thread programs of <=4 operations with an explicit schedule, a sequential tail program, then an implicit 'delete every artifact, full_gc'. Operations: one-call put, streamed write in generated fragment sizes (also split across steps, also abandoned), delete, get / buffered read, gc, full_gc, repair, verify, clock advance, chunk tampering/removal (sequential programs only). Artifact contents are sequences of <=4 distinct chunk-sized blocks plus a partial tail, so artifacts share chunks; sizes 0, 1, chunk-1, chunk, chunk+1 and several chunks are drawn explicitly. Sequential steps are each followed by a judgement of every live artifact; the threads phase is judged at quiescence (plus reads of artifacts no thread deletes). Non-trivial: at least one write was acknowledged. Distinct: hash of (chunk size, thread count, per-operation outcome kinds, number of thread switches).".into()
+        "A case is: chunk size (1..64 bytes), gc min_age and batch size, the store's max_artifact_size (not configured, or 1-5 chunks), a sequential setup program, 0 or 2-4 thread programs of <=4 operations with an explicit schedule, a sequential tail program, then an implicit 'delete every artifact, full_gc'. Operations: one-call put, streamed write in generated piece sizes (one piece, many tiny pieces, chunk-sized, short-then-long, long-then-short, mixtures of 1..255 bytes; also split across steps, also abandoned), delete, get / buffered read, gc, full_gc, repair, verify, clock advance, chunk tampering/removal (sequential programs only). Artifact contents are sequences of <=4 distinct chunk-sized blocks plus a partial tail, so artifacts share chunks; sizes 0, 1, chunk-1, chunk, chunk+1 and several (up to 9) chunks are drawn explicitly. Sequential steps are each followed by a judgement of every live artifact; the threads phase is judged at quiescence (plus reads of artifacts no thread deletes). Non-trivial: at least one write was acknowledged. Distinct: hash of (chunk size, thread count, per-operation outcome kinds, number of thread switches).".into()
     }
 
     fn components(&self) -> Value {
@@ -1445,6 +1560,7 @@ impl Scenario for C19 {
         vec![
             "single TensorStore calls (get/put/delete/exists/scan) are atomic; thread switches happen only between them (hook sites) and at operation boundaries".into(),
             "an operation that returned an error is un-acknowledged (one-call put of zero bytes is rejected with EmptyData; zero-byte artifacts are written through the streaming API)".into(),
+            "the text says nothing about size limits: a write refused because of max_artifact_size is un-acknowledged, an over-limit streamed write that is accepted is an ordinary artifact (reported as an observation); artifacts of OTHER writers are judged as always".into(),
             "during the concurrent phase only reads of artifacts that no thread deletes are judged; everything else is judged at quiescence".into(),
             "after a storage fault, artifacts containing a faulted chunk are judged by verify only (reads of them are not judged)".into(),
             "gc progress (that unreferenced chunks are eventually collected by plain gc cycles) is not part of the text: reported as an observation only".into(),
